@@ -148,31 +148,49 @@ static int pal_of_cid(ComponentId id) {
     return -1;
 }
 
+struct ChunkRange { const std::byte* begin; size_t size; size_t ai; size_t ci_chunk; uint32_t cap;
+                    std::vector<std::tuple<uint32_t, uint32_t, uint32_t>> comps; /* offset, size, cid */ };
+static std::vector<ChunkRange> g_snapshot;
+static bool g_use_snapshot = false;
+
+static void collect_ranges(std::vector<ChunkRange>& out) {
+    Driver& d = *g_drv;
+    out.clear();
+    if (!d.world) return;
+    auto& em = d.em();
+    for (size_t ai = 0; ai < em.archetypes_.size(); ++ai) {
+        auto& arch = *em.archetypes_[ArchetypeIndex::make(ai)];
+        auto* st = static_cast<DefaultComponentDataStorage*>(arch.data_storage_.get());
+        const auto cap = st->chunk_capacity_.toInt();
+        for (size_t ci = 0; ci < st->chunks_.size(); ++ci) {
+            ChunkRange r{st->chunks_[ChunkIndex::make(ci)], st->chunk_size_, ai, ci, cap, {}};
+            for (size_t k = 0; k < st->component_getter_info_.size(); ++k) {
+                const auto& g = st->component_getter_info_[ComponentIndex::make(k)];
+                const auto cidv = arch.operation_helper_.component_index_to_component_id[ComponentIndex::make(k)];
+                r.comps.emplace_back(g.offset.toInt(), g.size, cidv.toInt());
+            }
+            out.push_back(std::move(r));
+        }
+    }
+}
+
 static std::string place_of(const void* p) {
     Driver& d = *g_drv;
-    if (d.world) {
-        auto& em = d.em();
-        for (size_t ai = 0; ai < em.archetypes_.size(); ++ai) {
-            auto& arch = *em.archetypes_[ArchetypeIndex::make(ai)];
-            auto* st = static_cast<DefaultComponentDataStorage*>(arch.data_storage_.get());
-            const auto cap = st->chunk_capacity_.toInt();
-            for (size_t ci = 0; ci < st->chunks_.size(); ++ci) {
-                const std::byte* chunk = st->chunks_[ChunkIndex::make(ci)];
-                const std::byte* bp = static_cast<const std::byte*>(p);
-                if (bp >= chunk && bp < chunk + st->chunk_size_) {
-                    const size_t off = bp - chunk;
-                    for (size_t k = 0; k < st->component_getter_info_.size(); ++k) {
-                        const auto& g = st->component_getter_info_[ComponentIndex::make(k)];
-                        const size_t span = g.size == 0 ? 1 : size_t(g.size) * cap;
-                        if (off >= g.offset.toInt() && off < g.offset.toInt() + span) {
-                            const size_t slot = ci * cap + (g.size == 0 ? 0 : (off - g.offset.toInt()) / g.size);
-                            const auto cidv = arch.operation_helper_.component_index_to_component_id[ComponentIndex::make(k)];
-                            return "a" + std::to_string(ai) + "." + std::to_string(cidv.toInt()) + "." + std::to_string(slot);
-                        }
-                    }
-                    return "a" + std::to_string(ai) + ".?";
+    static thread_local std::vector<ChunkRange> live;
+    const std::vector<ChunkRange>* ranges = &g_snapshot;
+    if (!g_use_snapshot) { collect_ranges(live); ranges = &live; }
+    const std::byte* bp = static_cast<const std::byte*>(p);
+    for (const auto& r : *ranges) {
+        if (bp >= r.begin && bp < r.begin + r.size) {
+            const size_t off = bp - r.begin;
+            for (const auto& [coff, csize, cidv] : r.comps) {
+                const size_t span = csize == 0 ? 1 : size_t(csize) * r.cap;
+                if (off >= coff && off < coff + span) {
+                    const size_t slot = r.ci_chunk * r.cap + (csize == 0 ? 0 : (off - coff) / csize);
+                    return "a" + std::to_string(r.ai) + "." + std::to_string(cidv) + "." + std::to_string(slot);
                 }
             }
+            return "a" + std::to_string(r.ai) + ".?";
         }
     }
     char buf[64];
@@ -620,7 +638,7 @@ static std::string run_script(const std::vector<std::string>& lines, std::ostrea
             std::sort(visits.begin(), visits.end());
             for (auto& v : visits) R << v;
         }
-        else if (op == "teardown") { disarm(); d.jobs.clear(); d.world.reset(); out << "R\n";
+        else if (op == "teardown") { disarm(); d.jobs.clear(); collect_ranges(g_snapshot); g_use_snapshot = true; d.world.reset(); g_use_snapshot = false; out << "R\n";
             { std::lock_guard<std::mutex> lock{g_log_mutex}; out << "E"; for (auto& e : g_events) out << " " << render(e); out << "\n"; g_events.clear(); }
             continue; }
         else { R << "unknown-op"; }
@@ -629,7 +647,7 @@ static std::string run_script(const std::vector<std::string>& lines, std::ostrea
         out.flush();
     }
     disarm();
-    if (d.world) { d.jobs.clear(); d.world.reset(); out << "op " << opn << " (implicit teardown)\nE";
+    if (d.world) { d.jobs.clear(); collect_ranges(g_snapshot); g_use_snapshot = true; d.world.reset(); g_use_snapshot = false; out << "op " << opn << " (implicit teardown)\nE";
         { std::lock_guard<std::mutex> lock{g_log_mutex}; for (auto& e : g_events) out << " " << render(e); g_events.clear(); }
         out << "\n"; }
     g_drv = nullptr;
